@@ -190,6 +190,73 @@ def asan_substep(chk, streams, n):
             dec.cleanup(d.prefix)
 
 
+AOM_QUICK = ["a_default", "a_tiles", "a_tilegroups", "a_nonuniform", "a_sb128", "a_errres", "a_sframe", "a_superres_fixed",
+             "a_superres_rand", "a_resize_rand", "a_aq1", "a_deltaq2", "a_deltalf", "a_qm", "a_lossless", "a_10bit",
+             "a_fgtest5", "a_fgtest8", "a_screen_ibc", "a_noorder", "a_lr", "a_gm", "a_reduced_tx", "a_fwdkf", "a_odd",
+             "a_lr_sb128", "a_zoom_gm_t", "a_screen_real", "a_still_fg", "a_rt"]
+
+
+class _FakeEnc:
+    """stands for 'the stream exists' in judge_stream (the stream was produced by libaom, not by encdrv)"""
+    timed_out = False
+    rc = 0
+    wall = 0.0
+    stderr = ""
+    res = {"api_error": 0}
+
+
+def aom_stage(chk, quick, scale):
+    import sys
+    from .. import av1parse_selftest as st
+    try:
+        names = [n for n, _ in st.aom_cases()]
+    except Exception as e:  # the ctypes layout probe failed: say so instead of guessing
+        chk.inconclusive_case("independent encoder unavailable: %s" % e)
+        return
+    if quick:
+        names = [n for n in AOM_QUICK if n in names]
+    names = names[:max(1, int(len(names) * scale))] if scale < 1 else names
+    script = os.path.abspath(st.__file__)
+
+    def one(name):
+        prefix = os.path.join(chk.dir, "aom_" + name)
+        r = core.run([sys.executable, script, "--aomenc-encode", name, prefix + ".ivf"], timeout=600)
+        if r.rc != 0 or not os.path.exists(prefix + ".ivf") or os.path.getsize(prefix + ".ivf") < 40:
+            return name, None
+        case = {"_aomenc": name}
+        vs = judge_stream(chk, case, _FakeEnc(), prefix)
+        for v in vs:
+            v["sig"] = "aomenc:" + name
+            if v.get("key"):
+                v["key"] = v["key"].replace("|base|", "|aomenc:%s|" % name).replace("|base", "|aomenc:%s" % name)
+        if not any(v["verdict"] in ("violated", "inconclusive") for v in vs):
+            enc.cleanup(prefix)
+        return name, vs
+
+    for name, vs in core.pmap(one, names, workers=max(2, core.default_workers() // 2)):
+        if vs is None:
+            chk.bump("aomenc_streams_not_produced")
+            continue
+        chk.bump("aomenc_streams")
+        for v in vs:
+            chk.count()
+            vd = v["verdict"]
+            if vd == "held":
+                chk.nontrivial_case("aomenc:%s/p%s" % (name, v["pipe"]))
+                chk.bump("pictures_compared", v["frames"])
+                chk.bump("aomenc_streams_x_pipeline_held")
+                chk.note_set("aomenc_streams_held", name)
+            elif vd == "unsupported":
+                chk.bump("unsupported_by_svt_decoder")
+                chk.note_set("unsupported_signatures", v["sig"])
+            elif vd == "no-stream":
+                chk.bump("no_stream")
+            elif vd == "inconclusive":
+                chk.inconclusive_case(v["why"], {"aomenc": name})
+            else:
+                chk.violation(v["key"], v["why"], {"aomenc": name})
+
+
 def ivf_note(d):
     return d.case.get("in")
 
@@ -254,6 +321,11 @@ def run(chk, tier, replay=None):
                 chk.inconclusive_case(v["why"], case)
             else:
                 chk.violation(v["key"], v["why"], {"case": case})
+    # streams from an independent encoder (libaom through ctypes, lib/vf/av1parse_selftest.py) exercising tools the SVT
+    # encoder never emits: tile groups, non-uniform tiles, 128x128 superblocks, error resilience, S-frames, real
+    # superres/resize, segmentation/delta-q/delta-lf, quantisation matrices, lossless, film-grain test vectors, ...
+    if not replay:
+        aom_stage(chk, quick, scale)
     # exact-size-buffer decode under ASan (over-reads of the bitstream reader)
     if not replay:
         asan_substep(chk, streams, int((4 if quick else 40) * scale))
